@@ -32,7 +32,9 @@ SOURCES += [
              "        if i > 10:\n            break\n    else:\n        G = i\n    for a, (b, c) in []:\n        pass\n    assert n, 'msg'\n    try:\n        n = 1 // n\n    except ZeroDivisionError:\n        pass\n"
              "    except Exception as ex:\n        raise\n    else:\n        n = 2\n    finally:\n        del i\n    return [q for q in range(n) if q], {q: q for q in range(n)}, {q for q in range(n)}, (q for q in range(n))\n"),
     ("sharedset", "def s1(x):\n    return x in {'alpha', 'beta', 'gamma'}\ndef s2(x):\n    return x in {'alpha', 'beta', 'gamma'} or x == 'alpha'\ndef s3(x):\n    return 'gamma', 'beta', x in {'alpha', 'beta', 'gamma'}\n"),
-    ("linegaps", "def lg(n):\n    a = n\n" + "\n" * 150 + "    b = a\n" + "\n" * 300 + "    while b:\n        b -= 1\n" + "\n" * 200 + "        a += b\n    return (a,\n" + "\n" * 140 + "            b)\n"),
+    ("linegaps", "def lg(n):\n    a = n\n" + "\n" * 150 + "    b = a\n" + "\n" * 300 + "    while b:\n        b -= 1\n" + "\n" * 200 + "        a += b\n    return (a,\n" + "\n" * 140 + "            b)\n"
+                 # a single step of more than 2047 lines: three-chunk varints in the 3.11+ location table, multi-entry gaps before
+                 "def lg2(n):\n    a = n\n" + "\n" * 2100 + "    return a\n"),
     ("deco", "def dec(f):\n    return f\n@dec\nclass C(object):\n    a = 1\n    @staticmethod\n    def s(x=1, *y, **z):\n        return x\n    @property\n    def p(self):\n        return self.a\n"
              "    def m(self):\n        return super(C, self).__init__()\n"),
 ]
